@@ -331,12 +331,22 @@ impl Ast {
     where
         OwnedPtr<T>: Into<Node>,
     {
-        // Add an entry to this AST's lookup table for the element.
         let scoped_identifier = element.borrow().parser_scoped_identifier();
-        self.lookup_table.insert(scoped_identifier, self.elements.len());
+        let index = self.elements.len();
 
         // Add the element to this AST.
-        self.add_element(element)
+        let weak_ptr = self.add_element(element);
+
+        // Add an entry to this AST's lookup table for the element.
+        // A module can share its scoped identifier with a definition (and can be re-opened in any number of files).
+        // It must never shadow that definition, no matter which of the two was parsed first.
+        if matches!(self.elements[index], Node::Module(_)) {
+            self.lookup_table.entry(scoped_identifier).or_insert(index);
+        } else {
+            self.lookup_table.insert(scoped_identifier, index);
+        }
+
+        weak_ptr
     }
 }
 
